@@ -240,7 +240,11 @@ func c12Answers(r *h.Rng, tier string) ([]c12Answer, string) {
 	n := h.Pick(r, []int{0, 1, 2, 3, 50, 99, 100, 101, 199, 200, 201, 300})
 	a := c12Answer{Shape: "auto", N: n, Seed: r.U64()}
 	class := "rows"
-	switch r.Intn(12) {
+	k := r.Intn(12)
+	if tier == "search" {
+		k = r.Intn(6) // two thirds of the scripts fail somewhere
+	}
+	switch k {
 	case 0:
 		a.QueryErr, class = true, "query-error"
 	case 1, 2:
@@ -248,7 +252,7 @@ func c12Answers(r *h.Rng, tier string) ([]c12Answer, string) {
 		if a.FailAt < 1 {
 			a.FailAt = 1
 		}
-	case 3:
+	case 3, 4:
 		a.Corrupt, class = h.Pick(r, []string{"type", "null", "short"}), "corrupt-row"
 	}
 	as := []c12Answer{a}
